@@ -50,6 +50,7 @@ type c32Endpoint struct {
 	p         *network.Peer
 	authed    bool
 	authedID  module.PeerID
+	authedBytes []byte // the identity as bytes at the moment of authentication (peer ids are shared objects)
 	authCount int
 	// what the remote side presented in this session (set by the adversary script; nil for honest remotes)
 	presentedPub, presentedSig []byte
@@ -83,6 +84,7 @@ func newParty(rc *kit.RunCtx, name string, real bool) *c32Party {
 			ep.authed = true
 			ep.authCount++
 			ep.authedID = p.ID()
+			ep.authedBytes = append([]byte(nil), p.ID().Bytes()...)
 			rc.Event("%s: %s AUTHENTICATED as %s", pt.name, ep.label, whoIs(rc, p.ID()))
 		})
 	}
@@ -593,6 +595,23 @@ func runC32(rc *kit.RunCtx) {
 func c32Judge(rc *kit.RunCtx, parties []*c32Party, endpoints []*c32Endpoint) {
 	if rc.Failed() {
 		return
+	}
+	// Meanwhile the node goes on living: it sees packets from, and handshakes with, many other identities
+	// (every packet source and every handshake goes through network.NewPeerID). The identity assigned to an
+	// authenticated peer must not drift while that happens.
+	if rc.Tape.Permille("id.churn", 400) {
+		n := 100 + rc.Tape.Choose("id.churn.n", 160)
+		for i := 0; i < n; i++ {
+			_ = network.NewPeerID(rc.Tape.Bytes("id.churn.id", 20))
+		}
+		rc.Probe("identity_churn_after_authentication")
+		for _, ep := range endpoints {
+			if ep.authed && ep.p.ID() != nil && !bytes.Equal(ep.p.ID().Bytes(), ep.authedBytes) {
+				rc.Violate("identity-changed-after-authentication", ep.attack+"/after-id-churn", "%s/%s: authenticated as %x, after the node saw %d other identities the peer's identity reads %x",
+					ep.owner.name, ep.label, ep.authedBytes, n, ep.p.ID().Bytes())
+				return
+			}
+		}
 	}
 	byID := func(id module.PeerID) *c32Party {
 		for _, p := range parties {
